@@ -182,7 +182,7 @@ func runMSE(c MSECase) core.Result {
 		s.rw, s.selected, s.err = st, uint32(chosen), err
 	}()
 	var sa, sb side
-	timeout := time.After(4 * time.Second)
+	timeout := time.After(20 * time.Second)
 	for i := 0; i < 2; i++ {
 		select {
 		case sa = <-resA:
@@ -192,7 +192,7 @@ func runMSE(c MSECase) core.Result {
 		case <-timeout:
 			a.Close()
 			b.Close()
-			return core.Failf("handshake did not finish on both sides within 4 s over a fault-free transport")
+			return core.Failf("handshake did not finish on both sides within 20 s over a fault-free transport")
 		}
 	}
 	res := core.Result{Labels: []string{c.Pairing}}
@@ -276,7 +276,7 @@ func runMSE(c MSECase) core.Result {
 	}
 	go readN(sb.rw, wantB, "receiver")
 	go readN(sa.rw, wantA, "initiator")
-	dl := time.After(6 * time.Second)
+	dl := time.After(20 * time.Second)
 	for i := 0; i < 4; i++ {
 		select {
 		case err := <-errc:
@@ -288,7 +288,7 @@ func runMSE(c MSECase) core.Result {
 		case <-dl:
 			a.Close()
 			b.Close()
-			return core.Failf("data exchange after the handshake did not finish within 6 s")
+			return core.Failf("data exchange after the handshake did not finish within 20 s")
 		}
 	}
 	// the bytes on the wire after an RC4 handshake must not be the plaintext
